@@ -26,8 +26,8 @@ struct Env {
 struct Out {
     code: Option<i32>,
     stdout: String,
-    #[allow(dead_code)]
     stderr: String,
+    timed_out: bool,
 }
 
 impl Env {
@@ -56,7 +56,8 @@ impl Env {
             cmd.env(k, v);
         }
         let mut child = cmd.spawn().expect("spawn jjbin");
-        let deadline = Instant::now() + Duration::from_secs(120);
+        let deadline = Instant::now() + Duration::from_secs(600);
+        let mut timed_out = false;
         // drain pipes in threads to avoid blocking
         let mut so = child.stdout.take().unwrap();
         let mut se = child.stderr.take().unwrap();
@@ -77,6 +78,7 @@ impl Env {
                     if Instant::now() > deadline {
                         let _ = child.kill();
                         let _ = child.wait();
+                        timed_out = true;
                         break None;
                     }
                     std::thread::sleep(Duration::from_millis(3));
@@ -87,6 +89,7 @@ impl Env {
             code: status.and_then(|s| s.code()),
             stdout: t1.join().unwrap_or_default(),
             stderr: t2.join().unwrap_or_default(),
+            timed_out,
         }
     }
 }
@@ -363,7 +366,7 @@ fn signature(env: &Env, dir: &Path, seed: u64) -> String {
     format!("{:?}|{}", o.code, lines.join("\n"))
 }
 
-fn run_scenario(sc: &Scenario, root: &Path, jj: &Path, variant: usize) -> (String, String, bool) {
+fn run_scenario(sc: &Scenario, root: &Path, jj: &Path, variant: usize) -> (String, String, bool, Vec<String>) {
     let _ = std::fs::remove_dir_all(root);
     std::fs::create_dir_all(root.join("home")).unwrap();
     std::fs::create_dir_all(root.join("tmp")).unwrap();
@@ -516,6 +519,7 @@ fn run_scenario(sc: &Scenario, root: &Path, jj: &Path, variant: usize) -> (Strin
     // ---- crash runs, one per durable point, in parallel
     let results: Mutex<Vec<Option<String>>> = Mutex::new(vec![None; total]);
     let all_tables_ok = Mutex::new(true);
+    let notes: Mutex<Vec<String>> = Mutex::new(vec![]);
     let trace_mismatch = AtomicUsize::new(0);
     let next = AtomicUsize::new(0);
     let workers = std::thread::available_parallelism().map(|n| n.get()).unwrap_or(4).min(10);
@@ -582,6 +586,18 @@ fn run_scenario(sc: &Scenario, root: &Path, jj: &Path, variant: usize) -> (Strin
                         let r = env.jj(&ws, &["workspace", "update-stale"], seed0 + 5, &[]);
                         let st2 = env.jj(&ws, &["status"], seed0 + 6, &[]);
                         recovered = r.code == Some(0) && st2.code == Some(0);
+                        if !recovered {
+                            notes.lock().unwrap().push(format!(
+                                "{} crash point {n}: update-stale code={:?} timed_out={} stderr={:?}; status code={:?} timed_out={} stderr={:?}",
+                                sc.name,
+                                r.code,
+                                r.timed_out,
+                                r.stderr.chars().take(300).collect::<String>(),
+                                st2.code,
+                                st2.timed_out,
+                                st2.stderr.chars().take(300).collect::<String>()
+                            ));
+                        }
                     }
                     tok &= tables_ok(&ws);
                     // no file lost: still on disk, or stored in a visible commit
@@ -683,7 +699,7 @@ fn run_scenario(sc: &Scenario, root: &Path, jj: &Path, variant: usize) -> (Strin
         if ref_ok { "" } else { " REF-FAILED" }
     );
     let _ = std::fs::remove_dir_all(root);
-    (term, shape, total >= 5)
+    (term, shape, total >= 5, notes.into_inner().unwrap())
 }
 
 fn main() {
@@ -698,9 +714,17 @@ fn main() {
             let sc = &scs[i % scs.len()];
             let root = scratch.join(format!("s{i}"));
             let r = jjv::catch(|| run_scenario(sc, &root, &jj, variant));
-            let (term, shape, nontrivial) = r.unwrap_or_else(|| {
-                ("(C15.mk_case 0 [] 0 0 [] [] false false false)%nat".to_string(), format!("{} HARNESS-PANIC", sc.name), false)
+            let (term, shape, nontrivial, notes) = r.unwrap_or_else(|| {
+                (
+                    "(C15.mk_case 0 [] 0 0 [] [] false false false)%nat".to_string(),
+                    format!("{} HARNESS-PANIC", sc.name),
+                    false,
+                    vec![],
+                )
             });
+            for n in notes {
+                ctx.note(format!("case {i}: {n}"));
+            }
             ctx.emit(i, term, nontrivial, &shape);
         }
     });
